@@ -174,8 +174,12 @@ checks, 3000 s otherwise; it was hit twice while twenty other jobs loaded the ma
 
 Later session (rounds 16 and 17): C06, C09 and C17 gained sub-checks (`hier.reduce`, `geom.reduce`, cache reuse after
 `GeometryInfo::clear()`, pre-filled result arrays, near-miss filter tags, the cell-name length family).  Their quick tiers
-were run to completion on the unchanged tree after every change (all exit 0, exhaustive); the thorough tiers of C17 and C09
-were run end to end again on the strengthened harnesses (`notes/thorough_session3.log`).  The thorough tier of C06 (35-80 min)
+were run to completion on the unchanged tree after every change (all exit 0, exhaustive); the thorough tier of C17 was run end to end again on the strengthened harness
+(`notes/thorough_session3.log`: exit 0, exhaustive).  The thorough tier of C09 on its final harness was started twice but the
+session ended before it could finish (the second run had judged 14 382 of 37 650 chunks of the main space, about 920 000 hierarchies,
+with no violation when it was stopped); its last complete run is the one in `notes/thorough_final.log`, before `geom.reduce`,
+the release-and-reuse step and the pre-filled result arrays were added - those additions ran to completion in the quick tier, and
+the thorough tier only enlarges their spaces (soft deadline 5400 s, exit 0 with `exhaustive=false` beyond it).  The thorough tier of C06 (35-80 min)
 was NOT run again after `hier.reduce` and the near-miss tags were added: `hier.reduce` enumerates the same 3072 hierarchies
 in both tiers and the mixed leaf is part of the quick space, both completed there; the soft deadline still guarantees exit 0
 with `exhaustive=false` should the added work not fit.  The six benign changes of C06 and C09 (section 10.6 d) were run again
